@@ -21,6 +21,8 @@ def tag(item):
     if item is None:
         return 0
     try:
+        if isinstance(item, bytes):
+            return int(item.split(b":")[1].split(b";")[0])
         return int(item["data"])
     except Exception:  # noqa
         return -1
@@ -107,7 +109,7 @@ async def play(c):
                     await asyncio.sleep(c["gaps"][i - 1])
                 if c["raiseAt"] == i:
                     raise ProducerError("item %d" % i)
-                yield {"data": str(i)}
+                yield ({"data": str(i)} if c["kind"] == "sse" else b"item:%d;" % i)
             if c["endGap"]:
                 await asyncio.sleep(c["endGap"])
             if c["raiseAt"] == k + 1:
@@ -125,7 +127,8 @@ async def play(c):
             self.g = producer()
 
         def __aiter__(self):
-            log("aiter")
+            if c["kind"] == "sse":      # (the plain stream enters the iterable and asks for the first item in one step: "anext" is logged)
+                log("aiter")
             return self
 
         async def __anext__(self):
@@ -164,7 +167,7 @@ async def play(c):
                 log("send_ping")
             else:
                 try:
-                    log("send_body", int(b.split(b"data: ")[1].split(b"\n")[0]))
+                    log("send_body", int(b.split(b"data: ")[1].split(b"\n")[0]) if c["kind"] == "sse" else tag(b))
                 except Exception:  # noqa
                     log("send_body", -1)
         if c["sendCost"]:
@@ -173,7 +176,7 @@ async def play(c):
     saved = R.asyncio
     R.asyncio = Proxy(log)
     try:
-        app = A.SendEventResponse(UserIterable(), ping_interval=c["ping"])
+        app = A.SendEventResponse(UserIterable(), ping_interval=c["ping"]) if c["kind"] == "sse" else A.StreamResponse(UserIterable())
         scope = {"type": "http", "method": "GET", "path": "/", "headers": []}
         exc = ""
         try:
@@ -247,4 +250,54 @@ def run_task_level(ctx, wd):
         ev = traces[tid]["events"]
         ctx.drift_at({"scenario": sc[tid], "events": [e["e"] for e in ev[max(0, prefix - 6):prefix + 1]]}, "a behaviour of SseAsgi.tla",
                      ev[prefix] if prefix < len(ev) else None, "recorded ASGI event stream is not a behaviour of SseAsgi.tla at event %d" % (prefix + 1))
+    run_plain_stream(ctx, wd)
     ctx.sample({"asgi_task_scenario": sc[len(sc) // 3], "events": [e["e"] + ("(%s)" % e["x"] if e["x"] else "") for e in traces[len(sc) // 3]["events"]]})
+
+
+PLAIN_INV = ["DeliveredInOrder", "ClosedOnce", "Settled", "CompleteWhenUndisturbed", "RaisedIsReported", "RaisedOnlyIfProducerRaised"]
+PLAIN_ACTIONS = ["MSendStart", "MSpawn", "MTop", "MItem", "MEnd", "MProducerRaise", "MRelease", "MSendBody", "MSent", "MFin", "MRaise", "MSendFinal",
+                 "MReturn", "WStart", "WDisc", "WCancelled"]
+
+
+def run_plain_stream(ctx, wd):
+    """the plain ASGI StreamResponse (two tasks): StreamAsgiTask.tla by TLC, every virtual-time execution validated against it"""
+    tlc.sany(wd + "/StreamAsgiTask.tla")
+    K = dict(MaxN=2)
+    tlc.write_mc(wd, "MC_StreamAsgiTask", "StreamAsgiTask", constants=K,
+                 cfg_lines=["SPECIFICATION Spec", "CHECK_DEADLOCK FALSE"] + ["INVARIANT " + i for i in PLAIN_INV])
+    res = tlc.run_tlc(wd, "MC_StreamAsgiTask", workers=4)
+    ctx.add_tlc("StreamAsgiTask", res, K)
+    if res.violated:
+        raise common.MachineryError("StreamAsgiTask.tla: " + tlc.describe(res))
+    tlc.check_coverage(res, PLAIN_ACTIONS)
+    for prop in ("Terminates", "ReturnsAfterNextStep"):
+        tlc.write_mc(wd, "MC_StreamAsgiTaskLive", "StreamAsgiTask", constants=K, cfg_lines=["SPECIFICATION FairSpec", "CHECK_DEADLOCK FALSE", "PROPERTY " + prop])
+        lres = tlc.run_tlc(wd, "MC_StreamAsgiTaskLive", workers=4, coverage=False)
+        if lres.violated:
+            raise common.MachineryError("StreamAsgiTask.tla liveness %s: %s" % (prop, tlc.describe(lres)))
+    sc = [c for c in scenarios(ctx.tier) if c["kind"] == "stream"]
+    traces = []
+    for c in sc:
+        try:
+            ev, info = vloop.run(play(c))
+        except vloop.Deadlock as e:
+            ev, info = [], {"exc": "Deadlock:" + str(e), "pending": 0, "closed": 0, "begun": False}
+        traces.append({"n": c["k"], "raiseAt": c["raiseAt"], "events": ev})
+        ctx.count()
+        case = {"scenario": c}
+        if info["exc"] and info["exc"] != "NeverReturned":
+            ctx.violation(case, "the call returns or raises the producer's exception", info["exc"], "ASGI stream: the call ended with %s" % info["exc"])
+        elif info["pending"]:
+            ctx.violation(case, "no pending task", info, "ASGI stream: %d task(s) still pending after the call returned and the loop ran on" % info["pending"])
+        elif info["begun"] and info["closed"] != 1 and not info["exc"]:
+            ctx.violation(case, "cleanup exactly once", info, "ASGI stream: the user's generator cleanup ran %d time(s)" % info["closed"])
+    acc, rejected = tracecheck.validate(wd, "TraceStreamAsgiTask", traces, constants=dict(MaxN=3), invariants=PLAIN_INV)
+    ctx.traces_validated += acc
+    ctx.bounds["asgi_task_level_plain"] = {"scenarios": len(sc), "events": sum(len(t["events"]) for t in traces)}
+    for tid, name, st in tracecheck.validate.last_invariant_failures:
+        ctx.violation({"scenario": sc[tid]}, "invariant " + name, {k: st[k] for k in ("mpc", "wpc", "closed", "delivered", "outcome") if isinstance(st, dict) and k in st},
+                      "recorded ASGI stream reaches a state violating %s of StreamAsgiTask.tla" % name)
+    for tid, prefix in rejected:
+        ev = traces[tid]["events"]
+        ctx.drift_at({"scenario": sc[tid], "events": [e["e"] for e in ev[max(0, prefix - 6):prefix + 1]]}, "a behaviour of StreamAsgiTask.tla",
+                     ev[prefix] if prefix < len(ev) else None, "recorded ASGI stream is not a behaviour of StreamAsgiTask.tla at event %d" % (prefix + 1))
